@@ -23,7 +23,7 @@ Definition hash_key (h : hcodec) (k : sqlval) : Z :=
   | HashAdlerUtf8, SText s => Z.land (adler32 (utf8 h s)) hash_mask
   | HashIntMod, SInt z => z mod hash_mask
   | HashAdlerDouble, SReal f => Z.land (adler32 (pack_d h f)) hash_mask
-  | HashAdlerDouble, SNull => Z.land (adler32 (pack_d h FNaN)) hash_mask      (* a NaN key: outside the key domain *)
+  | HashAdlerDouble, SNull => Z.land (adler32 (pack_d h FNaN)) hash_mask      (* released code: a NaN key; put no longer yields NULL *)
   | _, _ => -1                                                                 (* plan does not fit the value: the
                                                                                   Python code would raise *)
   end.
